@@ -1,4 +1,5 @@
 """C07 - quantities are immutable values with sound equality / hash / copy (DESIGN.md 4, C07)."""
+import itertools
 import copy
 import pickle
 from collections import OrderedDict
@@ -128,7 +129,7 @@ class Checker:
         self.ctx, self.mon = ctx, mon
 
     def run_history(self, hist):
-        from barril.units import Quantity, ReadOnlyError
+        from barril.units import ObtainQuantity, Quantity, ReadOnlyError
 
         ctx, mon = self.ctx, self.mon
         db = table.build("posc")
@@ -160,6 +161,76 @@ class Checker:
                             if prev is not None and prev is not res:
                                 ctx.violation("repeated-request-not-identical:%s" % op[0], {"op": op, "first": repr(prev), "second": repr(res), "equal": prev == res}, replay={"history": hist[: i + 1]})
                             requests[rk] = res
+                    if op[0] == "derived" and o[0] == "ok":
+                        # the request names its composing map: the answer carries exactly that map (a single factor
+                        # with exponent 1 is the simple quantity), whichever of the three request forms was used
+                        items = op[2]
+                        ctx.ev()
+                        ctx.count("derived requests compared with the map they name")
+                        want = [(c, u, e) for c, u, e in items]
+                        got = [(c, u, e) for c, (u, e) in res.GetCategoryToUnitAndExps().items()] if isinstance(res, Quantity) else None
+                        if got != want:
+                            ctx.violation("derived-request-answered-with-another-composing-map:%s" % op[3], {"op": op, "asked": want, "got": got, "answer": repr(res)}, replay={"history": hist[: i + 1]})
+                        for other_form in ("CreateDerived", "ObtainQuantity(dict)", "ObtainQuantity(list)"):
+                            if other_form != op[3]:
+                                o2, res2 = H.execute(env, ("derived", None, items, other_form))
+                                ctx.ev()
+                                if o2[0] != "ok" or not (res2 == res and hash(res2) == hash(res)):
+                                    ctx.violation("derived-request-forms-disagree:%s-vs-%s" % (op[3], other_form), {"op": op, "first": repr(res), "other": repr(res2), "other_outcome": o2[:2]}, replay={"history": hist[: i + 1]})
+                    if op[0] == "derived" and o[0] == "ok" and isinstance(res, Quantity):
+                        # "a copy with another map" (MakeCopy / CreateCopyInstance) is one more request form: asked for
+                        # the same factors in another order, as a plain dict or an OrderedDict, it answers what
+                        # CreateDerived answers for that map
+                        perm = list(reversed(op[2])) if len(op[2]) > 1 else list(op[2])
+                        try:
+                            ref = Quantity.CreateDerived(OrderedDict((c, [u, e]) for c, u, e in perm))
+                        except Exception:
+                            ref = None
+                        if ref is not None:
+                            for form, fn in (
+                                ("MakeCopy(dict)", lambda: res.MakeCopy({c: [u, e] for c, u, e in perm})), ("MakeCopy(OrderedDict)", lambda: res.MakeCopy(OrderedDict((c, [u, e]) for c, u, e in perm))),
+                                ("CreateCopyInstance(dict)", lambda: res.CreateCopyInstance({c: [u, e] for c, u, e in perm})), ("MakeCopy(dict, same order)", None),
+                            ):  # fmt: skip
+                                ctx.ev()
+                                try:
+                                    if fn is None:
+                                        cp, want_q = res.MakeCopy({c: [u, e] for c, u, e in op[2]}), res
+                                    else:
+                                        cp, want_q = fn(), ref
+                                except Exception as e:
+                                    ctx.violation("copy-with-a-map-raised:%s:%s" % (form, type(e).__name__), {"op": op, "map": perm, "error": str(e)[:160]}, replay={"history": hist[: i + 1]})
+                                    continue
+                                if not (cp == want_q and hash(cp) == hash(want_q)) or snapshot.quantity_fingerprint(cp)[5] != snapshot.quantity_fingerprint(want_q)[5]:
+                                    ctx.violation("copy-with-a-map-answers-another-quantity:%s" % form, {"op": op, "map": perm, "got": repr(cp), "got_items": snapshot.quantity_fingerprint(cp)[5], "CreateDerived_gives": repr(want_q), "its_items": snapshot.quantity_fingerprint(want_q)[5]}, replay={"history": hist[: i + 1]})
+                    if op[0] == "derived" and o[0] == "ok" and isinstance(res, Quantity):
+                        # a caller that keeps working on the dict it handed over (building m/s, m/s2, m/s3 from one dict):
+                        # the quantity answered for a map not requested before must not follow the caller's later edits
+                        far = [(c, u, e + 5 if e > 0 else e - 5) for c, u, e in op[2]]
+                        for form in ("CreateDerived", "ObtainQuantity(dict)", "MakeCopy(dict)", "ObtainQuantity(list)"):
+                            work = OrderedDict((c, [u, e + (k_form := ("CreateDerived", "ObtainQuantity(dict)", "MakeCopy(dict)", "ObtainQuantity(list)").index(form)) * (1 if e > 0 else -1)]) for c, u, e in far)
+                            asked = [(c, v[0], v[1]) for c, v in work.items()]
+                            try:
+                                if form == "CreateDerived":
+                                    q2 = Quantity.CreateDerived(work)
+                                elif form == "ObtainQuantity(dict)":
+                                    q2 = ObtainQuantity(work)
+                                elif form == "MakeCopy(dict)":
+                                    q2 = res.MakeCopy(work)
+                                else:
+                                    rows = [v for v in work.values()]
+                                    q2 = ObtainQuantity(rows, list(work))
+                            except Exception:
+                                continue
+                            fp2 = snapshot.quantity_fingerprint(q2)
+                            for v in work.values():
+                                v[1] = 1
+                                v[0] = "s" if v[0] != "s" else "m"
+                            work.clear()
+                            ctx.ev()
+                            ctx.count("maps edited by the caller after the request")
+                            now = snapshot.quantity_fingerprint(q2)
+                            if now != fp2:
+                                ctx.violation("quantity-follows-the-callers-later-edits-of-the-map:%s" % form, {"asked": asked, "before": repr(fp2)[:300], "after": repr(now)[:300]}, replay={"history": hist[: i + 1]})
                     if op[0] == "copy" and o[0] == "ok":
                         src = env.pool[op[2]]
                         ctx.ev()
@@ -233,6 +304,67 @@ def long_haul(ctx, r):
             ctx.violation("long-haul:cache:%s" % v[0], {"key": repr(v[1])[:200], "resolved": repr(v[2])[:200]})
 
 
+REQUEST_FAMILIES = [
+    # (current spelling, legacy spellings) - the same few requests in every order
+    ("Mcf/d", ["1000ft3/d", "k(ft3)/d"]), ("lbmol", ["lbmole"]), ("N.s/m", ["Ns/m"]), ("MMm3", ["M(m3)"]), ("kg/gmol", ["kg/gmole"]), ("m", []), ("degC", []),
+]  # fmt: skip
+
+
+def request_orders(ctx, r, n_orders):
+    """'The identical object when the same request is repeated' whatever was requested in between: a small family of
+    requests that name one unit (current / legacy spelling x explicit category / none / another category of the type x
+    caption / none, as a string request and through Scalar), asked in many orders on a fresh database; after every new
+    request every earlier one is asked again. Requests that name the same category, unit and caption are equal."""
+    from barril.units import ObtainQuantity, Scalar
+
+    db0 = table.build("posc")
+    cbt = table.categories_by_type(db0)
+    for cur, legs in REQUEST_FAMILIES:
+        if cur not in db0.unit_to_unit_info:
+            continue
+        qt = db0.unit_to_unit_info[cur].quantity_type
+        c0 = db0.GetDefaultCategory(cur)
+        others = [c for c in cbt.get(qt, []) if c != c0][:1]
+        forms = []
+        for u in [cur] + legs:
+            forms += [(u, c0, None), (u, None, None), (u, c0, "cap"), (u, None, "cap")]
+            forms += [(u, c, None) for c in others]
+        forms = [("ObtainQuantity",) + f for f in forms] + [("Scalar",) + f for f in forms if f[2] is None][:4]
+        for k in range(n_orders):
+            order = list(forms)
+            r.shuffle(order)
+            order = order[: r.randint(3, len(order))]
+            db = table.build("posc")
+            with table.pushed(db):
+                got = []
+                for how, u, c, cap in order:
+                    try:
+                        q = ObtainQuantity(u, c, cap) if how == "ObtainQuantity" else (Scalar(c, 1.0, u) if c else Scalar(1.0, u)).GetQuantity()
+                    except Exception as e:
+                        ctx.ev()
+                        ctx.violation("request-order:request-raised:%s" % type(e).__name__, {"order": order, "request": [how, u, c, cap], "error": str(e)[:160]})
+                        break
+                    got.append(((how, u, c, cap), q, snapshot.quantity_fingerprint(q)))
+                    ctx.nt(("request-order", cur, how, u == cur, c is None, cap))
+                    for (req, q0, fp0) in got:
+                        ctx.ev()
+                        h0, u0, cc0, cap0 = req
+                        again = ObtainQuantity(u0, cc0, cap0) if h0 == "ObtainQuantity" else (Scalar(cc0, 1.0, u0) if cc0 else Scalar(1.0, u0)).GetQuantity()
+                        if again is not q0:
+                            ctx.violation("request-order:repeated-request-not-identical", {"order": order[: len(got)], "request": list(req), "first": repr(q0), "again": repr(again), "equal": again == q0})
+                        elif snapshot.quantity_fingerprint(q0) != fp0:
+                            ctx.violation("request-order:quantity-changed", {"order": order[: len(got)], "request": list(req)})
+                # same (category, unit, caption) named -> equal, hash-equal; otherwise unequal
+                for (ra, qa, _fa), (rb, qb, _fb) in itertools.combinations(got, 2):
+                    ctx.ev()
+                    same = (ra[2] or c0, ra[3] if True else None) == (rb[2] or c0, rb[3])
+                    if same and not (qa == qb and hash(qa) == hash(qb)):
+                        ctx.violation("request-order:same-category-unit-caption-not-equal", {"a": list(ra), "b": list(rb), "qa": repr(qa), "qb": repr(qb)})
+                    if not same and qa == qb:
+                        ctx.violation("request-order:different-requests-equal", {"a": list(ra), "b": list(rb), "qa": repr(qa), "qb": repr(qb)})
+            ctx.count("request orders run")
+
+
 def run(ctx):
     from barril.units import Quantity, UnitDatabase
 
@@ -246,7 +378,7 @@ def run(ctx):
         "after every step every Quantity constructed so far (enrolled from the Quantity.__init__ probe) and every cache value is re-fingerprinted; per history: "
         "==/hash partition over all pairs, cache soundness; one long-haul pass per shard: 35 requests repeated after ~5000 other quantities (every unit of the table) were requested. distinct non-trivial = distinct (op kind sequence) histories"
     )
-    ctx.assumptions = ["vandalism through private attributes or through a dict the caller keeps and mutates after handing it to ObtainQuantity is not an operation of the library"]
+    ctx.assumptions = ["vandalism through private attributes is not an operation of the library (a caller editing the dict it handed to a request is, and is exercised)"]
     r = ctx.rng("hist")
     ck = Checker(ctx, mon)
     n_hist = 150 if ctx.tier == "quick" else 2500
@@ -259,6 +391,7 @@ def run(ctx):
         if h == 0 and ctx.shard == 0:
             ctx.sample({"history_steps_18_26": [[str(x) for x in op] for op in hist[18:26]]})
     long_haul(ctx, ctx.rng("longhaul"))
+    request_orders(ctx, ctx.rng("orders"), 6 if ctx.tier == "quick" else 120)
     ctx.count("fingerprint comparisons", mon.n_checks)
     ctx.notes["monitor"] = {"fingerprint_and_pair_checks": mon.n_checks}
     # thorough tier: the repository's own tests as a workload under the global monitors (vp/suite_workload.py)
